@@ -103,6 +103,32 @@ def collect(tree):
     out = {q: sorted(local_names(fn)) for q, fn, _ in qualnames(tree)}
     out['<module>'] = sorted(module_names(tree))
     out['<defs>'] = {q: def_skeletons(fn) for q, fn, _ in qualnames(tree)}
+    out['<attrs>'] = {c.name: sorted(self_attrs(c)) for c in tree.body
+                      if isinstance(c, ast.ClassDef)}
+    return out
+
+
+def self_attrs(cls):
+    """Names of the attributes stored on `self` anywhere in the class
+    (`self.x = ..`, `self.x += ..`, `setattr(self, 'x', ..)`)."""
+    out = set()
+    for n in ast.walk(cls):
+        tgs = []
+        if isinstance(n, ast.Assign):
+            tgs = n.targets
+        elif isinstance(n, (ast.AugAssign, ast.AnnAssign)):
+            tgs = [n.target]
+        for t in tgs:
+            for e in (t.elts if isinstance(t, (ast.Tuple, ast.List))
+                      else [t]):
+                if isinstance(e, ast.Attribute) and isinstance(
+                        e.value, ast.Name) and e.value.id == 'self':
+                    out.add(e.attr)
+        if isinstance(n, ast.Call) and isinstance(n.func, ast.Name) and \
+                n.func.id == 'setattr' and len(n.args) >= 2 and isinstance(
+                    n.args[0], ast.Name) and n.args[0].id == 'self' and \
+                isinstance(n.args[1], ast.Constant):
+            out.add(n.args[1].value)
     return out
 
 
